@@ -27,7 +27,7 @@ ASSUMPTIONS = [
 BUDGET = {"quick": (4, 300), "thorough": (16, 4000)}
 KNOWN_KINDS = {}
 STRATA = ["transfer", "distribute", "direct", "mixed"]
-REQUIRED_CLASSES = ["op:transfer", "op:distribute", "op:add", "op:remove", "op:aspirate", "op:dispense", "split", "all-zero-transfer", "zero-in-transfer", "same-labware-transfer", "distribute-src=dst", "label:absent", "label:present", "auto_split:on", "auto_split:off", "refused-transfer-in-between"]
+REQUIRED_CLASSES = ["op:transfer", "op:distribute", "op:add", "op:remove", "op:aspirate", "op:dispense", "split", "all-zero-transfer", "zero-in-transfer", "same-labware-transfer", "distribute-src=dst", "label:absent", "label:present", "auto_split:on", "auto_split:off", "refused-transfer-in-between", "replica-labware"]
 
 
 @st.composite
@@ -40,6 +40,12 @@ def _case(draw, focus, tier="quick"):
         if i == 0 and focus == "distribute":
             kind = "trough"
         labs.append(draw(lab_spec(names[i], kind=kind, max_rows=4, max_cols=4, regime="roomy", grid=True, allow_names=False, pos=(10 + i, 1 + i), filled=True if i == 0 else None)))
+    if n >= 2 and draw(st.integers(0, 5)) == 0:
+        # a replica: a second, distinct labware object with the same name and geometry (histories are kept per object;
+        # records are not interpreted in this check, so the shared rack label does no harm)
+        import copy
+
+        labs[1] = dict(copy.deepcopy(labs[0]), pos=[11, 2])
     M = draw(st.sampled_from([5, 12.5, 50, 950, 33.3, 1.88, 900.3, 0.7]))
     zeroish = st.one_of(st.just(0), st.just(0), vs_ok(0.01))
     # exact multiples of a non-dyadic max_volume: the float quotient may land a hair above the integer
